@@ -211,7 +211,9 @@ func genCtrlCase(rt *rapid.T, o ctrlGenOpts) ctrlCase {
 			// scenario: the configuration changes while the controller is down (recorded services need a
 			// write after the restart), writes fail at first, and events race with the first passes
 			n := genCtrlPoolEdit(rt, cur)
+			renamedAll := false
 			if rapid.Bool().Draw(rt, "macroRename") {
+				renamedAll = true
 				n = vw.ClusterSpec{Namespaces: cur.Namespaces}
 				for _, p := range cur.Pools {
 					q := p
@@ -226,6 +228,18 @@ func genCtrlCase(rt *rapid.T, o ctrlGenOpts) ctrlCase {
 				cr.ListFail = []bool{true}
 			}
 			c.Ops = append(c.Ops, cr)
+			if renamedAll {
+				// the users follow a rename while the controller is down: every other service pinned to a pool by
+				// annotation now names the pool's new name (what the service records about its pool is stale)
+				for u := range live {
+					if live[u].Pool != "" && u%2 == 0 {
+						sp := live[u]
+						sp.Pool += "r"
+						live[u] = sp
+						c.Ops = append(c.Ops, ctrlOp{Kind: "update", Svc: u, Spec: &sp})
+					}
+				}
+			}
 			for j, m := 0, rapid.IntRange(1, 4).Draw(rt, "macroSteps"); j < m; j++ {
 				if rapid.Bool().Draw(rt, "macroTouch") {
 					u := rapid.IntRange(0, len(live)-1).Draw(rt, "macroSvc")
@@ -334,13 +348,15 @@ type sim struct {
 	sinceRestart  map[string]bool         // services written / made inadmissible since the restart
 	recR          map[string][]netip.Addr // during a restart: the statuses at the crash
 	ipModeDefault bool
-	poolCalls     int               // PoolChanged invocations (a reconcile of an unchanged configuration must not reach the handler)
-	cfgGen        int               // number of configurations the controller accepted so far
-	howGotGen     map[string]int    // cfgGen at the time howGot was recorded
-	howGot        map[string]string // how each service came to its current addresses (Allocate | AllocateFromPool | Assign | AddFamily)
-	blame         map[string]bool   // during a restart: victim -> whoever held its recorded address when the victim's handler ran had a record itself
-	thefts        map[string]bool   // during a restart: victim -> the service that took its recorded address had a record itself
-	fewer         map[string]bool   // during a restart: victim -> when the victim was processed, a service with a record of FEWER addresses than the victim's held its address (the start-up order handles services with more recorded addresses first: the listed ordering defect cannot explain that)
+	poolCalls     int                 // PoolChanged invocations (a reconcile of an unchanged configuration must not reach the handler)
+	cfgGen        int                 // number of configurations the controller accepted so far
+	howGotGen     map[string]int      // cfgGen at the time howGot was recorded
+	howGot        map[string]string   // how each service came to its current addresses (Allocate | AllocateFromPool | Assign | AddFamily)
+	blame         map[string]bool     // during a restart: victim -> whoever held its recorded address when the victim's handler ran had a record itself
+	thefts        map[string]bool     // during a restart: victim -> the service that took its recorded address had a record itself
+	blameWho      map[string][]string // during a restart: victim -> the services that held its recorded addresses when it was handled
+	gaveUp        map[string]bool     // during a restart: victim -> its recorded address was held by nobody when the configured controller handled it, and it was not taken back
+	fewer         map[string]bool     // during a restart: victim -> when the victim was processed, a service with a record of FEWER addresses than the victim's held its address (the start-up order handles services with more recorded addresses first: the listed ordering defect cannot explain that)
 }
 
 func (s *sim) setViol(v *vw.Violation) {
@@ -632,17 +648,37 @@ func (s *sim) afterService(name string, svc *v1.Service, pre vw.Holders, preIPs 
 	if s.recR != nil && svc != nil {
 		// the service could not re-claim a recorded address: who holds it at this moment?
 		if _, done := s.blame[name]; !done {
+			rival, free := false, false
 			for _, a := range s.recR[name] {
 				if containsAddr(now, a) {
 					continue
 				}
+				held := false
 				for o := range s.ever {
 					if o != name && containsAddr(ipsToAddrs(s.c.ips.IPs(o)), a) {
+						held = true
 						s.blame[name] = s.blame[name] || len(s.recR[o]) > 0
+						s.blameWho[name] = append(s.blameWho[name], o)
 						if n := len(s.recR[o]); n > 0 && n < len(s.recR[name]) {
 							s.fewer[name] = true
 						}
 					}
+				}
+				rival = rival || held
+				free = free || !held
+			}
+			if free && !rival && s.c.pools != nil && s.c.pools.ByName != nil {
+				// nobody held any of the recorded addresses it lost when the (configured) controller handled the
+				// service, and it still did not take them back although they were admissible for the service as it
+				// was then, under the configuration the controller had then: that is no theft
+				rh := vw.Holders{}
+				for k, as := range s.recR {
+					if sp, ok := s.specs[k]; ok && len(as) > 0 {
+						rh[k] = vw.HolderOf(sp, as, "")
+					}
+				}
+				if s.admissible(name, s.recR[name], rh) {
+					s.gaveUp[name] = true
 				}
 			}
 		}
@@ -1324,7 +1360,8 @@ func (s *sim) restart(op ctrlOp) {
 			s.touched[k] = true
 		}
 	}
-	s.recR, s.thefts, s.sinceRestart, s.blame, s.fewer = R, map[string]bool{}, map[string]bool{}, map[string]bool{}, map[string]bool{}
+	s.recR, s.thefts, s.sinceRestart, s.blame, s.fewer, s.gaveUp = R, map[string]bool{}, map[string]bool{}, map[string]bool{}, map[string]bool{}, map[string]bool{}
+	s.blameWho = map[string][]string{}
 	s.crash = ""
 	s.fail = append([]bool(nil), op.Fail...) // status writes failing during the first passes of the new instance
 	s.readFail = append([]bool(nil), op.ReadFail...)
@@ -1450,6 +1487,16 @@ func (s *sim) restartJudge() {
 			if thiefHadRecord && s.fewer[k] {
 				sig = "restart-lost:thief-had-fewer-recorded-addresses"
 			}
+		}
+		for _, o := range s.blameWho[k] {
+			if s.gaveUp[o] {
+				// the holder had given up a record of its own that was free and admissible: it had no reason to allocate
+				// at all, which the listed ordering defect does not explain
+				sig = "restart-lost:thief-gave-up-a-valid-record"
+			}
+		}
+		if s.gaveUp[k] {
+			sig = "restart-lost:address-was-free-when-the-service-was-handled"
 		}
 		v := vw.Violationf("restart-lost-recorded-address", "%s had %v recorded and still admissible at the crash, after the restart it holds %v (now held by %q; list order %v, early %v)", k, as, now, thief, op.Perm, op.Early).WithSig(sig)
 		if id := vw.KnownID("C06", v); id != "" {
